@@ -54,10 +54,10 @@ def transient(case, inputs, t):
     return V, I, PH
 
 
-def check_pair(case, rng):
-    """-> list of (key, what, replay)"""
+def check_pair(case, rng, fixed=None):
+    """-> list of (key, what, replay); fixed = (renamed circuit, id map, node map) to replay a recorded pair"""
     bad = []
-    other, im, nm = renamed(case, rng)
+    other, im, nm = fixed or renamed(case, rng)
     srcs = ssrun.sources_of(case)
     m = ssrun.impl_model(case)
     lam = np.linalg.eigvals(m['A']) if m['A'].shape[0] else np.array([])
@@ -149,3 +149,11 @@ def examine(ctx):
         for key, what, rep in r:
             ctx.violation(key, what, rep)
         ctx.nontriv(['circuit-level', [(c['kind'], c['id'], c['nodes']) for c in case['components']]])
+
+
+def replay(ctx, obj):
+    c = obj['case']
+    ctx.evaluations += 1
+    r = check_pair(c['circuit'], random.Random(0), fixed=(c['renamed'], c['ids'], c['nodes']) if 'renamed' in c else None)
+    for key, what, rep in (r or []):
+        ctx.violation(key, what, rep)
